@@ -40,7 +40,11 @@ def rules_arg(rng):
 def gen(rng, budget, tier):
     for i in range(budget):
         if rng.random() < 0.12:
-            yield f"c08.cat {hexs(rng.choice(GLOBS).encode())} {rules_arg(rng)}"
+            # half of the sessions choose another command word / send options of their own (serverless, plain, quiet, ...):
+            # whatever the client claims about itself must not change what is served
+            head = rng.choice([None, None, b"cat:serverless=true", b"grep:serverless=true:plain=true", b"cat:plain=true:quiet=true",
+                               b"grep:", b"cat:serverless=true:quiet=true", b"cat:before=1:after=1", b"cat:x=y"])
+            yield f"c08.cat {hexs(rng.choice(GLOBS).encode())} {rules_arg(rng)}" + (f" {hexs(head)}" if head else "")
         else:
             yield f"c08.perm {hexs(rng.choice(USERS))} {hexs(rng.choice(PATHS).encode())} {rules_arg(rng)}"
 
